@@ -41,6 +41,7 @@ def run(model, rep, tier):
     r12_nullable_results(ctx, rep)
     r13_user_exceptions_not_hashed(ctx, rep)
     r14_no_user_text_as_format_string(ctx, rep)
+    r15_integer_format_of_float(ctx, rep)
     rep.units['cfg'] = ctx.cfg_stats
 
 
@@ -918,3 +919,79 @@ def r14_no_user_text_as_format_string(ctx, rep, R='C04.R14'):
                       where=ctx.where(bad[0][0], bad[0][1]) if bad else ctx.where(fi, fi.node))
     if not n:
         rep.assume('%s: no function of the package uses a parameter as a format string' % R)
+
+
+# ---------------------------------------------------------------------------------------------
+# R15 -- a value the function itself treats as a float is not formatted with an integer-only spec
+
+def r15_integer_format_of_float(ctx, rep, R='C04.R15'):
+    rep.rule(R, 'type contradiction in the reporting code: a name that the function formats as a float '
+             '(%f / %.3f / :.3f ...), or that is produced from such a name by / or divmod(), is not '
+             'formatted with an integer-only spec of an f-string / str.format (:d :x :o :b :c) -- those '
+             'raise ValueError for a float ("%d" % x does not).  The formatter calls sit between a '
+             'layer hook and the runner\'s bookkeeping (stop_set_up before the layer is recorded, '
+             'summary before the totals): an exception there leaves a layer that is up unrecorded or '
+             'aborts the run')
+    import re as _re
+    m = ctx.model
+    n = 0
+    for fi in m.all_functions():
+        if fi.module.name.startswith('tests'):
+            continue
+        floats = set()
+        int_uses = []
+        for x in ast.walk(fi.node):
+            # '%.3f' % name   /   '%f ... %s' % (a, b)
+            if isinstance(x, ast.BinOp) and isinstance(x.op, ast.Mod) and isinstance(x.left, ast.Constant) and \
+                    isinstance(x.left.value, str):
+                convs = _re.findall(r'%(?:\([^)]*\))?[#0\- +]*(?:\*|\d+)?(?:\.(?:\*|\d+))?[hlL]?([a-zA-Z%])', x.left.value)
+                convs = [c for c in convs if c != '%']
+                args = x.right.elts if isinstance(x.right, ast.Tuple) else [x.right]
+                if len(convs) == len(args):
+                    for c, a in zip(convs, args):
+                        if c in 'feEgG' and isinstance(a, ast.Name):
+                            floats.add(a.id)
+            if isinstance(x, ast.FormattedValue) and x.format_spec is not None and isinstance(x.value, ast.Name):
+                spec = ''.join(v.value for v in x.format_spec.values if isinstance(v, ast.Constant) and isinstance(v.value, str))
+                if spec and spec[-1] in 'feEgG%':
+                    floats.add(x.value.id)
+                elif spec and spec[-1] in 'dxXobc':
+                    int_uses.append((x.value.id, x, spec))
+            if isinstance(x, ast.Call) and isinstance(x.func, ast.Attribute) and x.func.attr == 'format' and \
+                    isinstance(x.func.value, ast.Constant) and isinstance(x.func.value.value, str):
+                specs = _re.findall(r'\{[^{}:]*:([^{}]*)\}', x.func.value.value)
+                if len(specs) == len(x.args) and not x.keywords:
+                    for sp, a in zip(specs, x.args):
+                        if isinstance(a, ast.Name) and sp:
+                            if sp[-1] in 'feEgG%':
+                                floats.add(a.id)
+                            elif sp[-1] in 'dxXobc':
+                                int_uses.append((a.id, x, sp))
+        if not int_uses:
+            continue
+        # propagate: divmod(float, _) and float / _ give floats
+        changed = True
+        while changed:
+            changed = False
+            for x in ast.walk(fi.node):
+                if isinstance(x, ast.Assign) and isinstance(x.value, ast.Call) and dotted(x.value.func) == 'divmod' and \
+                        x.value.args and isinstance(x.value.args[0], ast.Name) and x.value.args[0].id in floats:
+                    for t in x.targets:
+                        for e in (t.elts if isinstance(t, ast.Tuple) else [t]):
+                            if isinstance(e, ast.Name) and e.id not in floats:
+                                floats.add(e.id)
+                                changed = True
+                if isinstance(x, ast.Assign) and isinstance(x.value, ast.BinOp) and isinstance(x.value.op, ast.Div):
+                    for t in x.targets:
+                        if isinstance(t, ast.Name) and t.id not in floats:
+                            floats.add(t.id)
+                            changed = True
+        for name, node, spec in int_uses:
+            n += 1
+            rep.check(name not in floats, R, '%s: %s formatted with :%s is not float-typed' % (fi.qualname, name, spec),
+                      '%s formats %s with the integer-only spec :%s although the same function treats the '
+                      'value as a float (it is formatted with %%f / :.3f, or comes from divmod() of such a '
+                      'value): ValueError inside the formatter' % (fi.qualname, name, spec),
+                      key='fmt-int-of-float:%s:%s' % (fi.qualname, name), func=fi.qualname, where=ctx.where(fi, node))
+    if not n:
+        rep.assume('%s: no integer-only format spec is applied to a plain name in an f-string / str.format' % R)
